@@ -77,6 +77,19 @@ def finding_key(suite, ops, line, msg):
     return "C15:%s:%s" % (site, cls)
 
 
+def extra_coverage(ctx, stats):
+    return {
+        "stated_goals_not_proved": ["Dawgs.C15.Props.tarjan_correct_full (per case: checkSCC on the implementation's output, see monitor)"],
+        "full_statements_refuted_for_live_code": ["reach_cache_exact false", "answers_history_independent false", "C15_full"],
+        "full_statements_proved_for_repaired_code": ["reach_cache_exact true", "answers_history_independent true",
+                                                     "C15_stmt true <= tarjan_correct_full"],
+        "model_variant": _mode,
+        "exhaustive_small_scope": {"graphs_n1": stats.get("gen.exhaustive_graphs_n1", 0), "graphs_n2": stats.get("gen.exhaustive_graphs_n2", 0),
+                                   "graphs_n3": stats.get("gen.exhaustive_graphs_n3", 0), "graphs_n4": stats.get("gen.exhaustive_graphs_n4", 0),
+                                   "expected": "2^(n*n) per seed: 2, 16, 512, 65536"},
+    }
+
+
 SPEC = {
     "id": "C15",
     "title": "reachability answers equal true graph reachability regardless of query history",
@@ -104,6 +117,7 @@ SPEC = {
     "assumptions": ["node ids are uint64 in the tie; Lean model uses Nat",
                     "single-threaded use of ReachabilityCache (the SIEVE locks are C16's subject)",
                     "full Tarjan correctness for ALL graphs is a stated goal (tarjan_correct_full); per case it is established by the verified certificate checker checkSCC run on the implementation's (= model's) output"],
+    "extra_coverage": extra_coverage,
     "explanation": "Proved for all inputs (Lean, no sorry): spec BFS = reachability; SCC certificate checker sound; Tarjan terminates and returns a partition "
                    "on every digraph; bidirectional ComponentReachable exact and terminating on every digraph and direction; componentReachDFS terminates; "
                    "its answers/cache never contain an unreachable component (both variants); the REPAIRED DFS keeps every cached binding exact and answers "
